@@ -71,8 +71,11 @@ def try_replay(ctx, repo, res):
         if o["result"] == "sat" and o.get("model") and "decode_error" not in o["model"]:
             cands.append((o["name"], o["model"]))
     # re-pose with concrete list lengths 0..3 (quantifier-free) to obtain models where the solver gave none
-    if len(cands) < 3:
+    t_start = time.time()
+    if len(cands) < 3 and not C.cases:      # (case-split contracts are too large to re-pose; their failing inputs come from the bounded tier)
         for n in range(0, 4):
+            if time.time() - t_start > 240:
+                break
             r2 = verify(qual, repo, ctx=ctx, bound=n, fast=True)
             for o in r2["obligations"]:
                 if o["result"] == "sat" and o.get("model") and "decode_error" not in o["model"]:
